@@ -29,6 +29,9 @@ MC_CFG = """CONSTANTS
   MaxBurst = {maxburst}
   DynChoices = {dyns}
   HalfOps = {halfops}
+  PadSizes = {padsizes}
+  PadLens = {padlens}
+  MaxPad = {maxpad}
   MaxHalf = {maxhalf}
   Paths = {paths}
 INIT Init
@@ -82,7 +85,8 @@ def mc(ctx, name, **kw):
              paths="TRUE" if kw.get("paths") else "FALSE",
              bursts=tla_set(kw.get("bursts", [])), uprounds=tla_set(kw.get("uprounds", [])),
              upsizes=tla_set(kw.get("upsizes", [])), maxburst=kw.get("maxburst", 0),
-             dyns=tla_set(kw.get("dyns", [False])), halfops=tla_set(kw.get("halfops", [])), maxhalf=kw.get("maxhalf", 0))
+             dyns=tla_set(kw.get("dyns", [False])), halfops=tla_set(kw.get("halfops", [])), maxhalf=kw.get("maxhalf", 0),
+             padsizes=tla_set(kw.get("padsizes", [])), padlens=tla_set(kw.get("padlens", [])), maxpad=kw.get("maxpad", 0))
     with open("%s/%s.cfg" % (ctx.scratch, name), "w") as f:
         f.write(MC_CFG.format(**d))
     res = ctx.tlc("Record_MC", cfg=name, workers=kw.get("workers", 8), timeout=kw.get("timeout", 1500),
